@@ -46,6 +46,7 @@ Definition str_true : list Z := [116; 114; 117; 101].
 Definition str_Inf : list Z := [73; 110; 102].
 Definition str_inf : list Z := [105; 110; 102].
 Definition str_NaN : list Z := [78; 97; 78].
+Definition str_nil : list Z := [110; 105; 108].
 
 Definition sym (name : list Z) : sexp := SSym false false name.
 Definition list2 (a b : sexp) : sexp := SPair a (SPair b SNull).   (* MakeList([]Sexp{a, b}) *)
@@ -166,10 +167,6 @@ Definition float_ok (text : list Z) : bool :=
       else mant <? thr * 10 ^ (- e10).
 
 Definition contains_e (s : list Z) : bool := mem_z 101 s || mem_z 69 s.
-
-Definition first_utf8_byte (r : Z) : Z :=
-  if r <? 128 then r else if r <? 2048 then 192 + r / 64
-  else if r <? 65536 then 224 + r / 4096 else 240 + r / 262144.
 
 (* ---- the token queue the parser reads ---- *)
 
@@ -300,7 +297,7 @@ Fixpoint pexpr (f : nat) (acc : list sexp) (top : bool) (q : queue) (k : sexp ->
     | THex => match parse_int 16 (t_str tok) with Some v => k (SInt v) q1 | None => OErr acc end
     | TOct => match parse_int 8 (t_str tok) with Some v => k (SInt v) q1 | None => OErr acc end
     | TBinary => match parse_int 2 (t_str tok) with Some v => k (SInt v) q1 | None => OErr acc end
-    | TChar => k (SChar (first_utf8_byte (hd 0 (t_str tok)))) q1
+    | TChar => k (SChar (hd 0 (t_str tok))) q1      (* utf8.DecodeRuneInString: the rune written *)
     | TString => k (SStr false (t_str tok)) q1
     | TBeginBacktickString => pbacktick acc q1 k
     | TBacktickString => k (SStr true (t_str tok)) q1
@@ -317,6 +314,7 @@ Fixpoint pexpr (f : nat) (acc : list sexp) (top : bool) (q : queue) (k : sexp ->
             if kind_is tok2 TFloat && (list_eqb (t_str tok2) str_Inf || list_eqb (t_str tok2) str_inf)
             then k (SFloat false (t_str tok ++ str_Inf)) (q_tail q2)
             else k (sym (t_str tok)) q2)
+        else if list_eqb (t_str tok) str_nil then k SNull q1    (* the symbol nil reads as the empty list *)
         else k (sym (t_str tok)) q1
     | TSymbolColon => k (SSym true false (t_str tok)) q1
     | TDot | TDotSymbol => k (SSym false true (t_str tok)) q1
